@@ -631,13 +631,13 @@ pub fn threshold_histories(rep: &mut Report, shard: usize, shards: usize, san: b
 		v
 	};
 	// (1) many distinct keys
-	let sizes: &[usize] = if san { &[14, 15, 113] } else { &[3, 7, 8, 14, 15, 16, 28, 29, 56, 57, 112, 113, 120, 224, 225, 300, 448, 449] };
+	let sizes: &[usize] = if cfg!(miri) { &[15] } else if san { &[14, 15, 113] } else { &[3, 7, 8, 14, 15, 16, 28, 29, 56, 57, 112, 113, 120, 224, 225, 300, 448, 449] };
 	for &n in sizes {
 		let base: Vec<Op> = (0..n).map(|j| Op::Push(format!("k{}", j))).collect();
 		let tail_keys = ["k0".to_string(), format!("k{}", n / 2), "zz".to_string()];
 		let mut tails: Vec<Vec<usize>> = vec![vec![]];
 		let mut layer: Vec<Vec<usize>> = vec![vec![]];
-		for _ in 0..(if san { 2 } else { 3 }) {
+		for _ in 0..(if cfg!(miri) { 1 } else if san { 2 } else { 3 }) {
 			let mut next = Vec::new();
 			for t in &layer {
 				for k in 0..3 {
@@ -662,7 +662,7 @@ pub fn threshold_histories(rep: &mut Report, shard: usize, shards: usize, san: b
 		}
 	}
 	// (2) many duplicates of one key, other keys before, between and after them
-	let dups: &[usize] = if san { &[3, 64] } else { &[2, 3, 4, 31, 32, 33, 63, 64, 65, 66, 100, 127, 128, 129, 200] };
+	let dups: &[usize] = if cfg!(miri) { &[4] } else if san { &[3, 64] } else { &[2, 3, 4, 31, 32, 33, 63, 64, 65, 66, 100, 127, 128, 129, 200] };
 	for &d in dups {
 		for layout in 0..6usize {
 			let mut prefix: Vec<Op> = Vec::new();
